@@ -80,9 +80,12 @@ PROPS = {
                    "malformed or whose expression cannot be evaluated is untouched, and deletes go only to policies no longer "
                    "marked (malformed_annotation_untouched, unevaluable_annotation_untouched, delete_only_unmarked, "
                    "unobtainable_untouched_run). Counter-example for the pinned reader: malformed_annotation_pinned_cex (D10).",
-        level_note="The resolver clause (unknown as-set => evaluation error, lib/src/query.rs) belongs to the IRR model "
-                   "(evalseq op) and is not claimed here: a failed evaluation enters as `ranges: None`, which is what eval.rs "
-                   "records for every error. Malformed annotations are fed through the real candidate reader.",
+        level_note="In the theorems a failed evaluation enters as `ranges: None`, which is what eval.rs records for every error. "
+                   "That the real evaluator does report the failure for EVERY candidate that needs an unobtainable object (also "
+                   "when several policies of one run share it) is the evalseq c03 family: the real Policies<Candidate>::evaluate "
+                   "against the fake IRRd (as-set unknown, or answered D/E/F), its output handed to the real compare/updates "
+                   "with every candidate installed; the candidates the Lean IRR model cannot evaluate must not be touched by "
+                   "any load. Malformed annotations are fed through the real candidate reader.",
         rule=POLICY_RULE,
         trusted=POLICY_TRUSTED,
         assumptions=["statement names are unique in the running configuration"],
